@@ -195,9 +195,10 @@ def r053(model, rep, ck):
         return ('below' if op in (ast.Lt, ast.LtE) else 'above', r)
 
     seen_bounds = set()
+    il_tp = Inliner(tp)
     for n in stores:
-        v = n.value
-        c1 = cond(n.targets[0].slice)
+        v = il_tp.expand(n.value)
+        c1 = cond(il_tp.expand(n.targets[0].slice))
         c2 = cond(v.slice) if isinstance(v, ast.Subscript) else None
         if c1 is None or c2 is None:
             rep.unresolved_item('R05.3', '%s:%d' % (tp.module.relpath, n.lineno), 'clamp statement not of the form theta[out-of-range] = bound[out-of-range]: %s' % src(n)[:80])
@@ -225,7 +226,27 @@ def r053(model, rep, ck):
                     rep.unresolved_item('R05.3', '%s:%d' % (tp.module.relpath, par.lineno), 'guard of the clamp not recognised')
                 else:
                     rep.ob('R05.3', tp, 'guard admits the clamp of %s' % c1[1], one == c1, 'the clamp of %s is guarded by a test of %s' % (c1[1], one[1]), line=par.lineno)
+    # an early `return theta` before the clamps may only be taken when nothing is out of range
+    first_store = min([n.lineno for n in stores] or [10 ** 9])
+    for g in [n for n in tp.body() if isinstance(n, ast.If) and n.lineno < first_store and n.body and isinstance(n.body[-1], ast.Return) and not n.orelse]:
+        t = il_tp.expand(g.test)
+
+        def any_cond(x):
+            return cond(x.args[0]) if isinstance(x, ast.Call) and src(x.func) in ('np.any', 'any') and len(x.args) == 1 else None
+        parts, form = None, None
+        if isinstance(t, ast.UnaryOp) and isinstance(t.op, ast.Not) and isinstance(t.operand, ast.BoolOp):
+            parts, form = [any_cond(x) for x in t.operand.values], ('not-or' if isinstance(t.operand.op, ast.Or) else 'not-and')
+        elif isinstance(t, ast.BoolOp) and all(isinstance(x, ast.UnaryOp) and isinstance(x.op, ast.Not) for x in t.values):
+            parts, form = [any_cond(x.operand) for x in t.values], ('not-or' if isinstance(t.op, ast.And) else 'not-and')
+        if parts is None or None in parts:
+            rep.unresolved_item('R05.3', '%s:%d' % (tp.module.relpath, g.lineno), 'early return of thetaProtector not recognised: ' + src(g.test)[:80])
+            continue
+        okg = form == 'not-or' and set(parts) == {('below', 'self.joint_mins'), ('above', 'self.joint_maxs')}
+        rep.ob('R05.3', tp, 'early return only when no joint is out of range', okg,
+               'the vector is returned unclamped when `%s` holds, which is also true for a vector that violates %s' % (
+                   src(g.test)[:90], 'only one of the limits' if form == 'not-and' else 'a limit that the test does not look at'), line=g.lineno)
     rets = [n for n in walk_own(tp.node) if isinstance(n, ast.Return)]
+    rets = [r_ for r_ in rets if r_.lineno >= first_store] or rets
     clip = [c for c in walk_own(tp.node) if isinstance(c, ast.Call) and src(c.func) in ('np.clip', 'numpy.clip') and len(c.args) == 3]
     if clip and not stores:
         c = clip[0]
@@ -415,9 +436,11 @@ def r057(model, rep, ck):
             rep.ob('R05.7', fi, 'restore backup follows the base in ' + fi.name, True, '%d exits' % n_exits)
     rep.floor('R05.7', 'methods that re-express the home pose for a base', n, 2)
     ro = ck.arm.methods.get('restoreOriginalEE')
-    st = [x for x in walk_own(ro.node) if isinstance(x, ast.Assign) and self_field(x.targets[0]) == '_end_effector_home']
-    ok = len(st) == 1 and src(st[0].value) in ('self._original_end_effector_home', 'self._original_end_effector_home.copy()')
-    rep.ob('R05.7', ro, 'restoreOriginalEE installs the backup', ok, 'restore assigns %s' % (src(st[0].value) if st else '?'))
+    from ..engine.inline import stores_through_helpers, norm_text
+    st = stores_through_helpers({n_: f_.node for n_, f_ in ck.arm.methods.items()}, ro.node, '_end_effector_home')
+    vals = sorted({norm_text(v) for v, _w in st})
+    ok = bool(vals) and all(v in ('self._original_end_effector_home', 'self._original_end_effector_home.copy()') for v in vals)
+    rep.ob('R05.7', ro, 'restoreOriginalEE installs the backup', ok, 'restore assigns %s' % (vals or '?'))
 
 
 def check(model, rep):
